@@ -119,7 +119,7 @@ Fixpoint tab_mask (tab : list (N * bytes * N)) (e : N) (ct : bytes) : N :=
 
 (* projected state: remote epoch, current read generation, old generations (sorted by the harness),
    per-epoch detectors (created with 2^48-1?, latest, bitmap), per-epoch highest numbers, queue length *)
-Definition pstate : Type := (N * option N * list N * list (bool * N * N) * list N * nat)%type.
+Definition pstate : Type := (N * option N * list N * list (bool * N * N) * list N * nat * nat)%type.
 
 Definition bitmap_of (m : list bool) : N :=
   fold_right (fun (b : bool) acc => 2 * acc + (if b then 1 else 0)) 0 m.
@@ -136,16 +136,16 @@ Definition sort_N (l : list N) : list N := fold_right insert_sorted [] l.
 Definition project_state (s : rstate) : pstate :=
   (r_epoch s, r_cur s, sort_N (r_old s),
    map (fun x : wentry => (fst x =? maxseq48, latest (snd x), bitmap_of (mask (snd x)))) (r_wins s),
-   r_high s, length (r_queue s)).
+   r_high s, length (r_queue s), length (r_early s)).
 
 Definition wtriple_eqb (a b : bool * N * N) : bool :=
   let '(a1, a2, a3) := a in let '(b1, b2, b3) := b in Bool.eqb a1 b1 && (a2 =? b2) && (a3 =? b3).
 
 Definition pstate_eqb (a b : pstate) : bool :=
-  let '(ae, ac, ao, aw, ah, aq) := a in
-  let '(be, bc, bo, bw, bh, bq) := b in
+  let '(ae, ac, ao, aw, ah, aq, ay) := a in
+  let '(be, bc, bo, bw, bh, bq, by_) := b in
   (ae =? be) && opt_eqb N.eqb ac bc && list_eqb N.eqb ao bo && list_eqb wtriple_eqb aw bw &&
-  list_eqb N.eqb ah bh && Nat.eqb aq bq.
+  list_eqb N.eqb ah bh && Nat.eqb aq bq && Nat.eqb ay by_.
 
 (* observation of one step: payloads returned by Read, (epoch, number) of records handed to the
    handshake layer (handshake + ACK records: seen as pending ACK entries / FSM wake-ups is not
@@ -158,12 +158,7 @@ Definition expand_obs (prev : pstate) (o : hobs) : obs :=
   let '(d, a, n, c, p) := o in (d, a, n, c, match p with Some x => x | None => prev end).
 Definition obs_state (o : obs) : pstate := let '(_, _, _, _, p) := o in p.
 
-Fixpoint delivered (os : list out) : list bytes :=
-  match os with
-  | [] => []
-  | ODeliver p _ _ :: os' => p :: delivered os'
-  | _ :: os' => delivered os'
-  end.
+Definition delivered (os : list out) : list bytes := map (fun x : bytes * N * N => fst (fst x)) (reads os).
 Fixpoint alerts_out (os : list out) : list (N * N) :=
   match os with
   | [] => []
@@ -190,11 +185,11 @@ Definition obs_eqb (a b : obs) : bool :=
 
 (* initial state given by its projection (the queue is given by its records) *)
 Definition mk_state (W : nat) (re : N) (cur : option N) (old : list N) (wins : list (bool * N * N))
-  (high : list N) (queue : list bytes) (cid : bytes) (cidneg rrc estab : bool) : rstate :=
+  (high : list N) (queue : list bytes) (cid : bytes) (cidneg rrc estab : bool) (early : list bytes) : rstate :=
   mk_rstate re cur old
     (map (fun t : bool * N * N => let '(m48, l, bm) := t in
             ((if m48 then maxseq48 else maxseq64), {| latest := l; mask := mask_of_bitmap W bm |})) wins)
-    high queue cid cidneg rrc false estab.
+    high queue cid cidneg rrc false estab (map (fun p => (p, 0, 0)) early).
 
 Record e2e_case := mk_e2e {
   ec_w : nat;
